@@ -50,7 +50,9 @@ def _batcher(draw):
     cfg = draw(BC.cfg_strategy(rets=(0, 0.25, 4.0), forms=('class',)))
     bdur = draw(st.sampled_from([0, 3 * U, 10 * U]))
     unique = draw(st.booleans())
-    calls = draw(BC.timed_calls(10, cfg, bdur, BC.NAMES[:3], explicit_keys=not unique, unique=unique))
+    # (a third of the programs cancel / time out some callers: the three spellings must still behave alike)
+    calls = draw(BC.timed_calls(10, cfg, bdur, BC.NAMES[:3], explicit_keys=not unique, unique=unique,
+                                cancels=draw(st.integers(0, 2)) == 0))
     gc_at = []
     if draw(st.integers(0, 2)) == 0:
         # garbage collections while the batcher is idle between calls (the per-loop registry is weak)
@@ -84,7 +86,7 @@ def _cache(draw):
 @st.composite
 def _loops(draw):
     cfg = {'mbs': draw(st.integers(1, 3)), 'mcb': draw(st.integers(1, 2)), 'bt': draw(st.sampled_from([4 * U, 8 * U])),
-           'ret': draw(st.sampled_from([0, 0.25]))}
+           'ret': draw(st.sampled_from([0, 0.25, 4.0]))}
 
     def calls():
         t = 0.0
@@ -96,6 +98,11 @@ def _loops(draw):
     phases = []
     for _ in range(draw(st.integers(1, 3))):
         phases.append([calls() for _ in range(draw(st.sampled_from([1, 1, 2, 3])))])
+    if draw(st.integers(0, 2)) == 0:
+        # one loop is left stopped (not closed) after its calls and is run again once the next phase is over
+        pi = draw(st.integers(0, len(phases) - 1))
+        li = draw(st.integers(0, len(phases[pi]) - 1))
+        phases[pi][li] = {'calls': phases[pi][li], 'then': calls()}
     sched = draw(schedule_strategy(max_decision=500, lines=loop_lines(), nthreads=4, walk_len=200))
     return {'kind': 'loops', 'cfg': cfg, 'form': draw(st.sampled_from(['deco', 'deco-opts'])), 'phases': phases,
             'bdur': draw(st.sampled_from([0, U, 4 * U])), 'sched': sched}
@@ -103,6 +110,12 @@ def _loops(draw):
 
 def strategy(tier):
     return st.one_of(_batcher(), _batcher(), _buffer(), _cache(), _loops())
+
+
+def _lp_ok(lp):
+    if isinstance(lp, dict):
+        return bool(lp['calls']) and bool(lp.get('then')) and all(x['at'] >= 0 for x in lp['calls'] + lp['then'])
+    return bool(lp) and all(x['at'] >= 0 for x in lp)
 
 
 def valid(case):
@@ -117,7 +130,7 @@ def valid(case):
         if k == 'loops':
             c = case['cfg']
             return (c['mbs'] >= 1 and c['mcb'] >= 1 and c['bt'] > 0 and c['ret'] >= 0 and case['form'] in ('deco', 'deco-opts')
-                    and case['phases'] and all(ph and all(lp and all(x['at'] >= 0 for x in lp) for lp in ph) for ph in case['phases'])
+                    and case['phases'] and all(ph and all(_lp_ok(lp) for lp in ph) for ph in case['phases'])
                     and case['bdur'] >= 0 and schedule_valid(case['sched']))
         return False
     except (KeyError, TypeError):
@@ -153,7 +166,12 @@ def _run_batcher(case):
     # effect-vs-value on every spelling (so "ignored in all spellings" cannot pass)
     cl = ['kind=batcher']
     nt = False
+    cancels = any(c_.get('cancel') is not None or c_.get('timeout') is not None for c_ in case['calls'])
+    if cancels:
+        cl.append('with-cancellations')
     for form, h in hists.items():
+        if cancels:
+            break        # the value-of-the-option judges assume that no caller is cancelled; the spellings are still compared
         c = copy.deepcopy(case)
         c['cfg']['form'] = form
         if case.get('unique'):
@@ -265,6 +283,13 @@ def _run_cache(case):
     return Result(viol, nt, cl, {'invocations': res['direct'][0], 'evictions': res['direct'][2]})
 
 
+def per_loop_all(hist):
+    out = {}
+    for c in hist['callers']:
+        out.setdefault((c['phase'], c['loop_index']), []).append(c)
+    return out
+
+
 def _run_loops(case):
     hist = HM.run(case)
     died, harness = thread_exc_violations(hist['thread_excs'], V)
@@ -314,6 +339,19 @@ def _run_loops(case):
                               f"{cfg['bt']}) but went to batches {where[a['i']]['id']} (size {len(where[a['i']]['items'])}, limit "
                               f"{cfg['mbs']}) and {where[b_['i']]['id']}", 'loops-split-burst'))
                 break
+    # retention is per loop too: a call for a key whose earlier request on the same loop completed less than
+    # retention_timeout ago adds no work item (also across a pause of that loop)
+    if cfg['ret'] > 0:
+        for lp, cs in per_loop_all(hist).items():
+            for i, b_ in enumerate(cs):
+                for a in cs[:i]:
+                    if a['key'] == b_['key'] and a['done'] is not None and b_['arrived'] is not None and a['i'] in where \
+                            and a['arrived'] <= b_['arrived'] < a['done'] + cfg['ret'] - U / 2 and b_['i'] in where \
+                            and where[b_['i']] is not where[a['i']]:
+                        viol.append(V('retention-ignored', f"loop {a['loop']}: call {b_['i']} for key {a['key']!r} arrived at "
+                                      f"{b_['arrived']}, inside the retention window of call {a['i']} (done {a['done']}, retention "
+                                      f"{cfg['ret']}), yet was put into batch {where[b_['i']]['id']}", 'loops-retention-ignored'))
+                        break
     nloops = sum(len(ph) for ph in case['phases'])
     nt = nloops >= 2
     cl = ['kind=loops', 'form=' + case['form'], 'sched=' + case['sched']['mode']] + (['nontrivial'] if nt else [])
@@ -321,4 +359,6 @@ def _run_loops(case):
         cl.append('successive-loops')
     if any(len(ph) >= 2 for ph in case['phases']):
         cl.append('concurrent-loops')
+    if any(isinstance(lp, dict) for ph in case['phases'] for lp in ph):
+        cl.append('resumed-loop')
     return Result(viol, nt, cl, HM.abbreviate(hist), {'steps': hist['steps'], 'decisions': hist['decisions']})
